@@ -43,7 +43,7 @@ class TimeShim:
         return self._clock.read()
 
     def time(self) -> float:
-        return 1_700_000_000.0 + self._clock.read()
+        return 1_700_000_000.0 + self._clock.read() + self._clock.wall_offset_ns / 1e9
 
     def sleep(self, d: float) -> None:  # geckolib never calls this in library code
         raise HarnessError("real time.sleep reached inside the simulation")
@@ -53,7 +53,7 @@ def make_datetime_shim(clock: Clock):
     class SimDateTime(_dt.datetime):
         @classmethod
         def now(cls, tz=None):
-            d = _EPOCH + _dt.timedelta(seconds=clock.peek())
+            d = _EPOCH + _dt.timedelta(seconds=clock.peek() + clock.wall_offset_ns / 1e9)
             return cls(d.year, d.month, d.day, d.hour, d.minute, d.second, d.microsecond, tzinfo=tz)
 
         @classmethod
